@@ -2,7 +2,10 @@
 From Coq Require Import List NArith String Bool Sorted.
 From V Require Import Base.Strings Base.Result Model.Registry Model.Settings Model.Subst
   Model.TypePath Model.Derives Model.Generate Model.Emit Model.Equal Model.WellFormed
-  Proofs.GenProofs Proofs.SortDedup Proofs.ClosedProofs.
+  Proofs.GenProofs Proofs.SortDedup Proofs.ClosedProofs
+  Checkers.Parse Checkers.Sem Model.Unparse Model.UnparseClosed
+  Proofs.ParseTy Proofs.ParseItem Proofs.ParseMod Proofs.ArityProofs Proofs.ParseClosed.
+From V Require Model.Shape.
 Import ListNotations.
 
 (** every emitted item is the IR of an item-eligible registry entry, sitting at that entry's path *)
@@ -78,3 +81,119 @@ Theorem C02_unique_modules :
   StronglySorted (fun a b => String.compare a b = Lt) (child_names es) /\ NoDup (child_names es).
 Proof. exact child_names_unique. Qed.
 Print Assumptions C02_unique_modules.
+
+(** ** C02_emit_parses: the independent token reader [Checkers/Parse.v] (which shares no code with
+    the printer [Model/Emit.v]) reads every printed stream back into the tree [Model/Unparse.v]
+    computes from the IR.  Scope ("plain"): every path the printer does not build itself (path
+    tokens of [TPath] nodes, the compact / bits wrapper paths, the alloc crate path) is a path of
+    identifier segments without generic arguments ([plain_path]: what [from_type_def_path], the
+    prelude table and PassThrough substitutes produce; Specified substitutes that carry their own
+    generic arguments are out of scope); user derive paths are bracket-balanced and user attributes
+    have the form [# [ balanced ]] ([derives_okb]: the reader skips attributes by counting
+    delimiters); item, variant and named-field idents are not punctuation tokens and not [pub]
+    ([ident_tok]).  [Open Scope nat_scope] is not assumed: lengths are [List.length]. *)
+
+(** types: for a plain path [t] printed as [toks], the reader started on [toks ++ rest] with fuel
+    above [length toks] returns [ir_pty alloc t] and stops exactly at [rest], provided [rest] does
+    not continue a type ([ty_stop]: it is empty or its first token is neither [<] nor [:], e.g.
+    [,] [>] [)] [;]).  The entry point [parse_type] uses fuel [S (length toks)]. *)
+Theorem C02_type_parses :
+  forall alloc, alloc_okb alloc = true ->
+  forall t toks, tp_plain t = true -> tp_tokens alloc t = Ok toks ->
+  forall rest, ty_stop rest = true ->
+  forall fuel, (List.length toks < fuel)%nat ->
+  parse_ty fuel (toks ++ rest) = Some (ir_pty alloc t, rest).
+Proof. exact type_parses. Qed.
+Print Assumptions C02_type_parses.
+
+Theorem C02_type_parses_entry :
+  forall alloc, alloc_okb alloc = true ->
+  forall t toks, tp_plain t = true -> tp_tokens alloc t = Ok toks ->
+  parse_type toks = Some (ir_pty alloc t).
+Proof. exact parse_type_emitted. Qed.
+Print Assumptions C02_type_parses_entry.
+
+(** items: all struct forms (unit with / without PhantomData marker, tuple, named; compact and skip
+    attributes, docs, derives, generics) and enums (index attributes, docs, unit / tuple / named
+    variants, the [__Ignore] variant).  The side condition on [rest] is needed for a braced struct
+    only (the reader would take a following [;] for the struct's own). *)
+Theorem C02_item_parses :
+  forall s ir toks,
+  type_ir_tokens s ir = Ok toks -> ir_plain s ir = true ->
+  forall fuel rest, (List.length toks < fuel)%nat ->
+  (pi_is_enum (item_of_ir s ir) = false -> pi_semi (item_of_ir s ir) = false ->
+   hd_is ";" rest = false) ->
+  parse_item fuel (toks ++ rest) = Some (item_of_ir s ir, rest).
+Proof. exact item_parses. Qed.
+Print Assumptions C02_item_parses.
+
+(** the whole module tree *)
+Theorem C02_emit_parses :
+  forall s m toks,
+  emit_module s m = Ok toks -> items_plain s m = true ->
+  parse_module toks = Some (pmod_of_items s m).
+Proof. exact emit_parses. Qed.
+Print Assumptions C02_emit_parses.
+
+(** the parsed item carries a trailing semicolon exactly for unit and tuple structs
+    ([semi_struct ir]: [ti_kind ir = KStruct c] with [ci_kind c] = [CNoFields] or [CUnnamed _]) *)
+Theorem C02_syn_forms :
+  forall s ir toks,
+  type_ir_tokens s ir = Ok toks -> ir_plain s ir = true ->
+  exists it, parse_one_item toks = Some it /\ it = item_of_ir s ir /\
+             (pi_semi it = true <-> semi_struct ir).
+Proof. exact syn_forms. Qed.
+Print Assumptions C02_syn_forms.
+
+(** ** closedness of the parse of the emitted tokens.
+    [closedb] (Checkers/Sem.v) is the checker the harness runs on the parse of the OBSERVED tokens.
+    Here it is shown to hold on the tree [pmod_of_items s m] - which by [C02_emit_parses] IS the
+    parse of the emitted tokens - from IR-level conditions [ir_closed s m] (Model/UnparseClosed.v):
+    the root ident does not start with [_] (parameter names are [_<n>]) and is not the head of the
+    alloc path; keys are duplicate-free and prefix-free; every key ends in its item's name; in every
+    field, every [TPath] node whose tokens start with the root ident is [root :: p] for an emitted
+    item at [p] with as many arguments as that item declares parameters, and no compact / bits
+    wrapper path starts with the root ident; fields are tokenizable; every declared parameter is
+    unused (hence printed in the marker) or occurs in a field; parameter indices are distinct. *)
+Theorem C02_closedb_of_ir :
+  forall s m, ir_closed s m -> items_plain s m = true ->
+  closedb (s_root s) (pmod_of_items s m) = true.
+Proof. exact closedb_of_ir. Qed.
+Print Assumptions C02_closedb_of_ir.
+
+(** under [skeleton_consistent r s] the number of generic arguments at every path rooted at the
+    types module, anywhere inside a field of an emitted item, equals the number of parameters the
+    item found at that path declares *)
+Theorem C02_arity_consistent :
+  forall r s teq m,
+  Shape.skeleton_consistent r s -> root_fresh s -> generate r s teq = Ok m ->
+  forall p0 id ir, items_get m p0 = Some (id, ir) ->
+  forall f, In f (kind_fields (ti_kind ir)) ->
+  forall ptoks params, In (TPath ptoks params) (subpaths (fi_path f)) ->
+  forall q id' ir', ptoks = rel_path (s_root s :: q) -> items_get m q = Some (id', ir') ->
+  List.length params = List.length (ti_params ir').
+Proof. exact arity_consistent. Qed.
+Print Assumptions C02_arity_consistent.
+
+(** the whole chain: generate, print, read the tokens back with the independent reader, check
+    closedness ([closedb]: rooted paths resolve with the declared arity, every declared generic is
+    mentioned by a field or the marker, generic names distinct, module / item names unique per
+    module, root module named and re-exported as the root).
+    Hypotheses beyond [root_fresh], [skeleton_consistent], plainness - each is necessary for
+    [closedb] itself, not an artefact of the proof:
+    - [starts_with "_" (s_root s) = false]: generic parameters are named [_<n>]; a root module of
+      that name would make a parameter read as a (dangling) rooted path;
+    - [wrappers_fresh s]: the compact / bits wrapper paths ([s_compact], [s_bits]) do not start with
+      the root ident ([root_fresh] of Proofs/ClosedProofs.v covers the alloc path and substitute
+      targets only);
+    - [keys_prefix_free m]: no item path is a proper prefix of another (DESIGN 3.1 clause 4);
+      otherwise an item and a sibling module share a name. *)
+Theorem C02_closedb_emitted :
+  forall r s teq m toks,
+  root_fresh s -> starts_with "_" (s_root s) = false -> wrappers_fresh s ->
+  Shape.skeleton_consistent r s ->
+  generate r s teq = Ok m -> emit_module s m = Ok toks -> items_plain s m = true ->
+  keys_prefix_free m ->
+  exists pm, parse_module toks = Some pm /\ closedb (s_root s) pm = true.
+Proof. exact emitted_closed. Qed.
+Print Assumptions C02_closedb_emitted.
